@@ -89,16 +89,28 @@ REQUIRED_COUNTERS = [
     'zero_continuous_layouts', 'zero_categorical_layouts',
     'budget_below_batch_cases', 'budget_not_multiple_of_batch_cases',
     'budget_short_of_pool_with_priors_cases', 'outside_cube_prior_cases:eagle',
+    'needle_on_planted_prior_cases:eagle', 'needle_on_planted_prior_cases:random',
+    'priors_near_pool_slots_cases', 'padded_prior_rows_exceed_pool_slots_cases',
+    'more_priors_than_pool_slots_cases',
+    'pool_ceiling_reached_batch_not_divisor_with_priors_cases',
+    'batch_not_divisor_of_100_cases',
 ]
 MIN_DISTINCT = {'quick': 200, 'thorough': 1500}
 
 FN_CLASSES = ['quad', 'corner', 'cat', 'plateau', 'mix', 'nanreg', 'infreg',
-              'const', 'big', 'tiny']
+              'const', 'big', 'tiny', 'spike']
 PRIOR_CLASSES = ['random', 'opt-first', 'opt-last', 'opt-mid', 'dups', 'corners',
-                 'outside']
+                 'outside', 'opt-edge', 'opt-rand']
 PADS = ['NONE', 'POWERS_OF_2', 'MULTIPLES_OF_10']
 STRATEGIES = ['eagle', 'random', 'eagle', 'eagle-ucbpe', 'eagle', 'random',
-              'eagle-mult', 'eagle']
+              'eagle-mult', 'eagle', 'eagle-cap', 'eagle-ucbpe']
+# suggestion batch sizes: divisors of the default pool ceiling (100) and sizes
+# that do not divide it (the pool is rounded up to a multiple of the batch)
+BATCHES = [5, 10, 25, 25, 5, 10, 25, 7, 8, 30, 64]
+# every group with priors runs these (score class, prior class) pairs first: a
+# needle that only the planted prior point sits on is the sharpest instance of
+# "never worse than the best prior" (the search does not find it by itself)
+LEAD_CASES = [('spike', 'opt-first'), ('spike', 'opt-last'), ('spike', 'opt-edge')]
 MAX_REPORTS_PER_MECH = 4
 
 
@@ -118,9 +130,13 @@ def padded_dim(n, pad):
   return int(2 ** math.ceil(math.log(n, 2)))
 
 
+def raw_pool_size(n_features, exponent=1.2):
+  return 10 + int(0.5 * n_features + n_features ** exponent)
+
+
 def eagle_pool_size(n_features, batch, exponent=1.2, max_pool=100):
-  pool = 10 + int(0.5 * n_features + n_features ** exponent)
-  pool = min(pool, max_pool)
+  """Pool size the documented rule gives (only used to shape the budgets)."""
+  pool = min(raw_pool_size(n_features, exponent), max_pool or 100)
   return int(math.ceil(pool / batch) * batch)
 
 
@@ -128,38 +144,66 @@ def eagle_pool_size(n_features, batch, exponent=1.2, max_pool=100):
 # compiles only 2-4 shapes per shard): together they cover every strategy,
 # layout kind, padding, count relation and prior class.
 FIRST = [
-    # strategy, layout, padf, count relation, priors, budget class
-    ('random', 'mixed', 'NONE', 'gt', 'few', 'std'),
-    ('eagle', 'mixed', 'POWERS_OF_2', 'lt', 'few', 'std'),
-    ('eagle', 'cat', 'NONE', 'one', 'many', 'below-batch'),
-    ('eagle-ucbpe', 'mixed', 'MULTIPLES_OF_10', 'gt', 'few', 'std'),
-    ('eagle', 'cont', 'POWERS_OF_2', 'eq', 'none', 'std'),
-    ('random', 'cont', 'NONE', 'one', 'none', 'below-batch'),
-    ('eagle-mult', 'mixed', 'NONE', 'lt', 'none', 'std'),
-    ('eagle', 'mixed', 'MULTIPLES_OF_10', 'all', 'few', 'std'),
-    ('random', 'cat', 'NONE', 'lt', 'many', 'std'),
-    ('eagle', 'cont', 'NONE', 'gt', 'many', 'short-of-pool'),
-    ('eagle-ucbpe', 'cat', 'POWERS_OF_2', 'one', 'few', 'std'),
-    ('random', 'mixed', 'POWERS_OF_2', 'lt', 'few', 'std'),
+    # strategy, layout, padf, count relation, priors, budget class, overrides
+    ('random', 'mixed', 'NONE', 'gt', 'few', 'std', {}),
+    # as many priors as the pool takes, in a trial-padded prior array
+    ('eagle', 'mixed', 'POWERS_OF_2', 'lt', 'near-pool', 'std', {'padt': 'pad'}),
+    ('eagle', 'cat', 'NONE', 'one', 'many', 'below-batch', {}),
+    # production config, enough features for the pool ceiling, a batch size that
+    # does not divide the ceiling, priors filling the prior part of the pool
+    ('eagle-ucbpe', 'wide', 'MULTIPLES_OF_10', 'gt', 'near-pool', 'std',
+     {'batch': 30}),
+    ('eagle', 'cont', 'POWERS_OF_2', 'eq', 'none', 'std', {}),
+    ('random', 'cont', 'NONE', 'one', 'none', 'below-batch', {}),
+    ('eagle-mult', 'mixed', 'NONE', 'lt', 'none', 'std', {}),
+    ('eagle', 'mixed', 'MULTIPLES_OF_10', 'all', 'few', 'std', {}),
+    ('random', 'cat', 'NONE', 'lt', 'many', 'std', {}),
+    ('eagle', 'cont', 'NONE', 'gt', 'many', 'short-of-pool', {}),
+    ('eagle-ucbpe', 'cat', 'POWERS_OF_2', 'one', 'few', 'std', {}),
+    ('random', 'mixed', 'POWERS_OF_2', 'lt', 'few', 'std', {}),
+    # second round of the fixed schedule
+    ('eagle-cap', 'mixed', 'NONE', 'lt', 'near-pool', 'std', {'batch': 8}),
+    ('eagle', 'wide', 'NONE', 'gt', 'near-pool', 'std',
+     {'batch': 64, 'ncont': 40}),
+    ('eagle-ucbpe', 'mixed', 'MULTIPLES_OF_10', 'gt', 'few', 'std', {}),
+    ('eagle', 'cont', 'NONE', 'one', 'near-pool', 'std',
+     {'batch': 7, 'padt': 'pad'}),
+    ('eagle-cap', 'cont', 'POWERS_OF_2', 'gt', 'many', 'std', {'batch': 30}),
+    ('eagle-mult', 'mixed', 'NONE', 'eq', 'near-pool', 'std', {'padt': 'pad'}),
 ]
 UCBPE_EXPONENT = 2.0494446726436744
 
 
+PRIOR_PCT = {'eagle-ucbpe': 0.423499384081575}     # else the default 0.96
+
+
+def pool_left_space(pool, pct):
+  """Slots of an eagle pool of `pool` fireflies that take prior points."""
+  return pool - int(pool * (1 - pct))
+
+
 def gen_group(rng, index, tier):
   fixed = FIRST[index] if index < len(FIRST) else None
+  over = fixed[6] if fixed else {}
   strategy = fixed[0] if fixed else STRATEGIES[index % len(STRATEGIES)]
-  lay = fixed[1] if fixed else rng.choice(['cont', 'cat', 'mixed', 'mixed', 'mixed'])
+  lay = fixed[1] if fixed else rng.choice(
+      ['cont', 'cat', 'mixed', 'mixed', 'mixed', 'wide'])
   if lay == 'cont':
     ncont, cats = rng.choice([1, 2, 3, 5, 6]), []
   elif lay == 'cat':
     ncont = 0
     cats = [rng.choice([2, 3, 4, 6]) for _ in range(rng.choice([1, 2, 3, 5]))]
+  elif lay == 'wide':
+    # enough features for the automatic pool size to come near / reach its
+    # ceiling (default rule: 34 features, gp_ucb_pe exponent: 9 features)
+    ncont = rng.choice([9, 12, 20, 34, 40])
+    cats = [rng.choice([2, 3, 4, 6]) for _ in range(rng.choice([0, 0, 1, 2]))]
   else:
     ncont = rng.choice([1, 2, 3, 5])
     cats = [rng.choice([2, 3, 4, 6]) for _ in range(rng.choice([1, 2, 3]))]
   if fixed:
     padf = fixed[2]
-    if padf == 'POWERS_OF_2':
+    if padf == 'POWERS_OF_2' and lay != 'wide':
       # 3 or 5 features so that powers of two really pad
       if ncont:
         ncont = rng.choice([3, 5])
@@ -169,12 +213,23 @@ def gen_group(rng, index, tier):
     padf = rng.choice(PADS) if rng.random() < 0.3 else 'NONE'
   else:
     padf = rng.choice(PADS)
+  ncont = over.get('ncont', ncont)
   padt = rng.choice(PADS)
-  batch = rng.choice([5, 10, 25, 25])
+  if over.get('padt') == 'pad':
+    padt = rng.choice(PADS[1:])
+  batch = rng.choice(BATCHES)
+  batch = over.get('batch', batch)
   n_parallel = 0 if fixed else rng.choice([0, 0, 0, 0, 1, 2, 3])
   nfeat = ncont + len(cats)
   exponent = UCBPE_EXPONENT if strategy == 'eagle-ucbpe' else 1.2
   eagle = strategy.startswith('eagle')
+  # eagle-cap: a pool ceiling (EagleStrategyConfig.max_pool_size) at or just
+  # below what the automatic rule gives for this layout, so that the ceiling
+  # binds and meets batch sizes that do not divide it
+  cap_delta = rng.choice([0, 1, 3, 5, 8])
+  max_pool = 0
+  if strategy == 'eagle-cap':
+    max_pool = max(6, raw_pool_size(nfeat) - cap_delta)
   # budget class: how max_evaluations relates to the batch and to the eagle pool
   #   std            >= pool, often not a multiple of the batch
   #   below-batch    1 .. batch-1 (one round must still run)
@@ -189,9 +244,11 @@ def gen_group(rng, index, tier):
   if budget in ('short-of-pool', 'tiny'):
     if not eagle:
       budget = 'std'
-    elif eagle_pool_size(nfeat, batch, exponent) <= batch:
+    elif eagle_pool_size(nfeat, batch, exponent, max_pool) <= batch:
       batch = rng.choice([5, 10])      # the pool has at least 11 fireflies
-  pool = eagle_pool_size(nfeat, batch, exponent)
+      if eagle_pool_size(nfeat, batch, exponent, max_pool) <= batch:
+        budget = 'std'
+  pool = eagle_pool_size(nfeat, batch, exponent, max_pool)
   use_fori = True if fixed else rng.random() < 0.75
   tiny_budget = budget == 'tiny'
   if budget == 'tiny':
@@ -222,15 +279,25 @@ def gen_group(rng, index, tier):
            'gt': batch + rng.randint(1, batch + 3), 'all': total}[rel]
   # the budget always allows `count` evaluations
   count = min(count, max_evals)
-  pc = fixed[4] if fixed else rng.choice(['none', 'few', 'few', 'many'])
+  # number of priors: none, a few, more than the pool, or `near-pool` = as many
+  # as the prior part of the pool takes, give or take a few (the number is
+  # fixed when the optimiser is built, from the pool size it really has; the
+  # offsets are tried in this order, see build_env)
+  pc = fixed[4] if fixed else rng.choice(['none', 'few', 'few', 'many',
+                                          'near-pool'])
   if budget == 'short-of-pool' and pc != 'many' and rng.random() < 0.7:
     pc = 'many'
+  left = pool_left_space(pool, PRIOR_PCT.get(strategy, 0.96))
   n_prior = {'none': 0, 'few': rng.randint(1, 6),
-             'many': pool + rng.randint(1, 40)}[pc]
+             'many': pool + rng.randint(1, 40),
+             'near-pool': max(1, left)}[pc]
+  offs = rng.sample(range(5), 5)
   if tiny_budget and n_prior == 0:
     n_prior = rng.randint(1, 6)
   if n_parallel and 0 < n_prior < n_parallel:
     n_prior = n_parallel
+  if pc == 'near-pool':
+    n_prior *= max(1, n_parallel)
   mode = 'jit'
   if not fixed and rng.random() < (0.08 if tier == 'quick' else 0.15):
     mode = 'eager'
@@ -248,7 +315,8 @@ def gen_group(rng, index, tier):
           'padt': padt, 'batch': batch, 'max_evals': max_evals,
           'use_fori': use_fori, 'n_parallel': n_parallel, 'count': count,
           'n_prior': n_prior, 'x64': rng.random() < 0.3, 'mode': mode,
-          'bounds': rng.choice(['unit', 'wide', 'log', 'int'])}
+          'bounds': rng.choice(['unit', 'wide', 'log', 'int']),
+          'max_pool': max_pool, 'near_pool': offs if pc == 'near-pool' else None}
 
 
 def group_shape(g):
@@ -259,9 +327,10 @@ def group_shape(g):
          else 'eq' if c == b else 'gt')
   return [g['strategy'], g['ncont'], sorted(g['cats']), g['padf'], g['padt'], b,
           rel, g['n_parallel'], g['use_fori'],
-          0 if not g['n_prior'] else (1 if g['n_prior'] <= 6 else 2),
+          0 if not g['n_prior'] else 3 if g.get('near_pool') else (
+              1 if g['n_prior'] <= 6 else 2),
           g['x64'], g['mode'], g['max_evals'] < 100, g['max_evals'] < b,
-          g['max_evals'] % b != 0]
+          g['max_evals'] % b != 0, bool(g.get('max_pool'))]
 
 
 # ---------------------------------------------------------------------------
@@ -327,12 +396,30 @@ def build_env(g):
     sf = es.VectorizedEagleStrategyFactory(eagle_config=es.EagleStrategyConfig(
         continuous_feature_perturbation_type=(
             es.ContinuousFeaturePerturbationType.MULTIPLICATIVE)))
+  elif g['strategy'] == 'eagle-cap':
+    sf = es.VectorizedEagleStrategyFactory(eagle_config=es.EagleStrategyConfig(
+        max_pool_size=g['max_pool']))
   else:
     raise ValueError(g['strategy'])
   env.optimizer = vb.VectorizedOptimizerFactory(
       strategy_factory=sf, max_evaluations=g['max_evals'],
       suggestion_batch_size=g['batch'], use_fori=g['use_fori'])(env.converter)
   env.pool = getattr(env.optimizer.strategy, 'pool_size', None)
+  # prior slots of the pool the optimiser really has (rows = slots * n_parallel)
+  env.pool_left = None
+  if env.pool:
+    env.pool_left = pool_left_space(
+        env.pool, env.optimizer.strategy.config.prior_trials_pool_pct)
+  env.n_prior = g['n_prior']
+  if g.get('near_pool') and env.pool_left:
+    # `near-pool`: pool_left - offset prior points; of the offsets (in the
+    # group's order) the first one for which the valid priors fit into the pool
+    # while the trial-padded prior array has more rows than that is preferred
+    par = max(1, g['n_parallel'])
+    sizes = [max(1, env.pool_left - o) for o in g['near_pool']]
+    over = [m for m in sizes
+            if padded_dim(m * par, g['padt']) // par > env.pool_left]
+    env.n_prior = (over or sizes)[0] * par
   env.log = []
   env.ncalls = [0]
   parallel = bool(g['n_parallel'])
@@ -357,6 +444,13 @@ def build_env(g):
     step = params['step']
     safe = jnp.where(step > 0, step, 1.0)
     s = jnp.where(step > 0, jnp.floor(s / safe) * safe, s)
+    # needle: a small ball (and one category combination) with a score above
+    # everything else; sr2 < 0 switches it off
+    d2 = jnp.sum(jnp.where(cm, 0.0, (c0 - params['sc']) ** 2), axis=-1)
+    spike_table = jnp.where(zm[:, None], 0.0, params['Ts'])
+    hits = jnp.sum(spike_table * onehot, axis=(-1, -2))
+    s = jnp.where((d2 < params['sr2']) & (hits > params['snk'] - 0.5),
+                  params['sv'], s)
     bad_table = jnp.where(zm[:, None], 0.0, params['Tbad'])
     bad = ((jnp.sum(c0 * params['e0'], axis=-1) > params['thr'])
            | (jnp.sum(bad_table * onehot, axis=(-1, -2)) > 0.5))
@@ -405,14 +499,17 @@ def gen_params(env, fn_class, nrng):
   f = env.fdtype
   wq = np.zeros(ncp); cq = np.zeros(ncp); wl = np.zeros(ncp)
   T = np.zeros((nkp, mc)); Tbad = np.zeros((nkp, mc)); e0 = np.zeros(ncp)
+  sc = np.zeros(ncp); Ts = np.zeros((nkp, mc)); sr2, sv = -1.0, 0.0
   # non-zero weight on padded dimensions: invisible iff masked / zero filled
   wq[n:] = 1.0
   wl[n:] = 1.5
   T[nk:, :] = nrng.uniform(0.5, 2.0, size=(nkp - nk, mc))
   step, thr, badval, scale = 0.0, 2.0, 0.0, 1.0
-  quad = fn_class in ('quad', 'plateau', 'mix', 'nanreg', 'infreg', 'big', 'tiny')
+  quad = fn_class in ('quad', 'plateau', 'mix', 'nanreg', 'infreg', 'big', 'tiny',
+                      'spike')
   lin = fn_class in ('corner', 'mix', 'nanreg', 'infreg')
-  cat = fn_class in ('cat', 'mix', 'nanreg', 'infreg', 'big', 'tiny', 'corner')
+  cat = fn_class in ('cat', 'mix', 'nanreg', 'infreg', 'big', 'tiny', 'corner',
+                     'spike')
   if fn_class == 'big':
     scale = 1e6
   if fn_class == 'tiny':
@@ -444,9 +541,20 @@ def gen_params(env, fn_class, nrng):
   A = 0.0 if fn_class == 'cat' else 0.37 * scale
   if fn_class == 'const':
     A = 0.5
+  if fn_class == 'spike':
+    # a needle of radius 0.01 (all continuous coordinates) on one category
+    # combination, away from the maximiser of the smooth part, scoring above
+    # the supremum of the smooth part
+    sc[:n] = nrng.uniform(0.05, 0.95, size=n)
+    for k, size in enumerate(g['cats']):
+      Ts[k, int(nrng.integers(size))] = 1.0
+    sr2 = 1e-4
+    sv = float(np.sum(np.max(T[:nk], axis=-1)) if nk else 0.0) + A * (n + nk)
+    sv = sv + float(nrng.uniform(1.0, 3.0))
   p = {'wq': wq, 'cq': cq, 'wl': wl, 'T': T, 'Tbad': Tbad, 'e0': e0,
        'A': np.asarray(A), 'step': np.asarray(step), 'thr': np.asarray(thr),
-       'badval': np.asarray(badval)}
+       'badval': np.asarray(badval), 'sc': sc, 'Ts': Ts,
+       'sr2': np.asarray(sr2), 'sv': np.asarray(sv), 'snk': np.asarray(nk)}
   return {k: np.asarray(v, dtype=f) for k, v in p.items()}
 
 
@@ -454,8 +562,10 @@ def np_score_points(env, p, c, z):
   """Independent numpy score of single points.
 
   c: (..., ncont) float, z: (..., ncat) int — real dimensions only.
-  Returns (value, ambiguous) where `ambiguous` marks plateau values within
-  tolerance of a quantisation boundary.
+  Returns (value, ambiguous, on_needle_boundary) where `ambiguous` marks
+  plateau values within tolerance of a quantisation boundary and
+  `on_needle_boundary` points whose distance to the needle centre is within
+  rounding of its radius (either value may come out of the jitted function).
   """
   g = env.g
   n, nk = g['ncont'], len(g['cats'])
@@ -479,10 +589,21 @@ def np_score_points(env, p, c, z):
     q = np.floor(s / step) * step
     amb = (np.floor((s - 4 * tol) / step) != np.floor((s + 4 * tol) / step))
     s = q
+  samb = np.zeros(s.shape, dtype=bool)
+  sr2 = float(P['sr2'])
+  if sr2 > 0:
+    d2 = np.sum((c - P['sc'][:n]) ** 2, axis=-1) if n else np.zeros(s.shape)
+    hit = np.ones(s.shape, dtype=bool)
+    for k in range(nk):
+      zk = np.clip(z[..., k], 0, env.maxcat - 1)
+      hit &= P['Ts'][k][zk] > 0.5
+    with np.errstate(invalid='ignore'):
+      samb = hit & (np.abs(d2 - sr2) <= (1e-14 if g['x64'] else 1e-8)) & ~bad
+      s = np.where(hit & (d2 < sr2), float(P['sv']), s)
   with np.errstate(invalid='ignore'):
     s = np.where(bad, float(P['badval']), s)
   amb = amb & ~bad
-  return s, amb
+  return s, amb, samb
 
 
 def score_tol(env, p):
@@ -508,12 +629,17 @@ def optimum(env, p, nrng):
   c = np.clip(c, 0.0, 1.0)
   z = np.array([int(np.argmax(p['T'][k][:size]))
                 for k, size in enumerate(g['cats'])], dtype=np.int32)
+  if float(p['sr2']) > 0:
+    # the needle
+    c = p['sc'][:n].astype(np.float64)
+    z = np.array([int(np.argmax(p['Ts'][k][:size]))
+                  for k, size in enumerate(g['cats'])], dtype=np.int32)
   return c, z
 
 
 def gen_priors(env, p, prior_class, nrng):
   g = env.g
-  m = g['n_prior']
+  m = env.n_prior
   if not m:
     return None, None, None
   n, nk = g['ncont'], len(g['cats'])
@@ -527,7 +653,15 @@ def gen_priors(env, p, prior_class, nrng):
     z[:] = z[0]
   if prior_class.startswith('opt'):
     oc, oz = optimum(env, p, nrng)
-    pos = {'opt-first': 0, 'opt-last': m - 1, 'opt-mid': m // 2}[prior_class]
+    # opt-edge: around the boundary between the most recent priors that are
+    # taken into the pool directly and the older ones that are merged in, and
+    # next to the two ends
+    left = (env.pool_left or eagle_pool_size(n + nk, g['batch'])) * max(
+        1, g['n_parallel'])
+    edge = [m - left, m - left - 1, m - left + 1, 1, m - 2]
+    pos = {'opt-first': 0, 'opt-last': m - 1, 'opt-mid': m // 2,
+           'opt-edge': min(m - 1, max(0, edge[int(nrng.integers(len(edge)))])),
+           'opt-rand': int(nrng.integers(m))}[prior_class]
     c[pos] = oc
     z[pos] = oz
   if prior_class == 'outside' and n:
@@ -557,11 +691,11 @@ def gen_priors(env, p, prior_class, nrng):
 
 def group_scores(env, p, c, z):
   """Score of rows grouped into parallel sets. c: (N, P, n), z: (N, P, k)."""
-  s, amb = np_score_points(env, p, c, z)       # (N, P)
+  s, amb, samb = np_score_points(env, p, c, z)       # (N, P)
   if env.g['n_parallel']:
     with np.errstate(invalid='ignore'):
-      return np.sum(s, axis=-1), np.sum(amb, axis=-1)
-  return s[:, 0], amb[:, 0].astype(int)
+      return np.sum(s, axis=-1), np.sum(amb, axis=-1), np.any(samb, axis=-1)
+  return s[:, 0], amb[:, 0].astype(int), samb[:, 0]
 
 
 # ---------------------------------------------------------------------------
@@ -762,13 +896,16 @@ def check_result(rep, env, case, p, prior_c, prior_z, res, log):
   tol = score_tol(env, p)
   # -- 6. reward == score(features), re-evaluated outside jit -------------------
   if bounds_ok and mask_ok and not leak:
-    exp, amb = group_scores(env, p, fc[..., :n], fz[..., :nk])
+    exp, amb, samb = group_scores(env, p, fc[..., :n], fz[..., :nk])
     step = float(p['step'])
     ctx.count(f'results_reevaluated:{fam}')
     ctx.count('rows_reevaluated', int(count))
     bad_rows = []
     for i in range(count):
       if is_placeholder[i] or not checked[i]:
+        continue
+      if samb[i]:
+        ctx.count('rows_on_needle_boundary_not_rescored')
         continue
       a, b = float(rw[i]), float(exp[i])
       if math.isnan(b) or math.isnan(a):
@@ -893,9 +1030,9 @@ def check_result(rep, env, case, p, prior_c, prior_z, res, log):
     groups = prior_c.shape[0] // P
     pc = prior_c[:groups * P].reshape(groups, P, n)
     pz = prior_z[:groups * P].reshape(groups, P, nk)
-    ps, pamb = group_scores(env, p, pc, pz)
+    ps, pamb, psamb = group_scores(env, p, pc, pz)
     ps = np.asarray(ps, dtype=np.float64)
-    usable = np.isfinite(ps)
+    usable = np.isfinite(ps) & ~psamb
     ctx.count(f'prior_checked:{fam}')
     if usable.any():
       ctx.count('prior_checked_with_finite_prior')
@@ -920,11 +1057,26 @@ def check_result(rep, env, case, p, prior_c, prior_z, res, log):
           cond = ':nan-scored-prior'
         else:
           cond = ':full-budget'
+        if fam == 'eagle' and cond in (':nan-scored-prior', ':full-budget'):
+          # the shape of the prior set / pool under which the prior was lost
+          rows = padded_dim(prior_c.shape[0], g['padt'])
+          if env.pool % g['batch']:
+            cond += ':pool-not-multiple-of-batch'
+          elif groups > env.pool_left:
+            cond += ':more-priors-than-pool-slots'
+          elif rows // P > env.pool_left:
+            cond += ':padded-prior-rows-exceed-pool-slots'
+          elif rows > prior_c.shape[0]:
+            cond += ':padded-prior-rows'
+          cond += ':best-prior-' + ('oldest' if k == 0 else 'newest'
+                                    if k == groups - 1 else 'inner')
         rep.violation(
             f'worse-than-prior:{fam}{cond}',
             f'{strat}: best returned reward {best!r} < score {best_prior!r} of '
             f'prior point {k} it was seeded with (max_evaluations='
-            f'{g["max_evals"]}, pool={env.pool}, priors={groups})', case,
+            f'{g["max_evals"]}, batch={g["batch"]}, pool={env.pool}, priors='
+            f'{groups} in {padded_dim(prior_c.shape[0], g["padt"]) // P} rows)',
+            case,
             {'best_returned': best, 'best_prior': best_prior, 'prior_index': k,
              'prior_continuous': pc[k], 'prior_categorical': pz[k]})
       if pri:
@@ -999,6 +1151,32 @@ def run_case(rep, env, case, repeat_check=False):
     ctx.count('budget_short_of_pool_with_priors_cases')
   if case['prior'] == 'outside' and g['ncont'] and g['n_prior']:
     ctx.count('outside_cube_prior_cases:' + strategy_family(g))
+  fam = strategy_family(g)
+  if case['fn'] == 'spike':
+    ctx.count('needle_cases')
+    if env.n_prior and case['prior'].startswith('opt'):
+      ctx.count('needle_on_planted_prior_cases:' + fam)
+  if env.pool and env.n_prior:
+    par = max(1, g['n_parallel'])
+    valid = env.n_prior // par
+    rows = padded_dim(env.n_prior, g['padt']) // par
+    if g.get('near_pool'):
+      ctx.count('priors_near_pool_slots_cases')
+    if valid <= env.pool_left < rows:
+      ctx.count('padded_prior_rows_exceed_pool_slots_cases')
+    if valid > env.pool_left:
+      ctx.count('more_priors_than_pool_slots_cases')
+  if env.pool:
+    exponent = UCBPE_EXPONENT if g['strategy'] == 'eagle-ucbpe' else 1.2
+    ceiling = g.get('max_pool') or 100
+    if raw_pool_size(g['ncont'] + len(g['cats']), exponent) >= ceiling:
+      ctx.count('pool_ceiling_reached_cases')
+      if ceiling % g['batch']:
+        ctx.count('pool_ceiling_reached_batch_not_divisor_cases')
+        if env.n_prior:
+          ctx.count('pool_ceiling_reached_batch_not_divisor_with_priors_cases')
+    if 100 % g['batch']:
+      ctx.count('batch_not_divisor_of_100_cases')
   if case['fn'] in ('plateau', 'const', 'cat'):
     ctx.count('plateau_cases')
   if g['n_parallel']:
@@ -1048,11 +1226,17 @@ def run_group(rep, gi, g, n_cases):
     if ctx.out_of_time():
       ctx.note('time budget reached inside a group')
       break
-    fn = FN_CLASSES[(off + j) % len(FN_CLASSES)]
+    nf, npc = len(FN_CLASSES), len(PRIOR_CLASSES)
+    fn = FN_CLASSES[(off + j) % nf]
     if j == 0 and g['ncont']:
       fn = 'quad'
-    prior_class = PRIOR_CLASSES[(off // 7 + j + j // len(FN_CLASSES))
-                                % len(PRIOR_CLASSES)]
+    # every (score class, prior class) pair comes up: the prior class advances
+    # by a step coprime with the number of prior classes per round of the
+    # score classes
+    step = next(k for k in range(1, npc + 1) if math.gcd(nf + k, npc) == 1)
+    prior_class = PRIOR_CLASSES[(off // 7 + j + (j // nf) * step) % npc]
+    if g['n_prior'] and 1 <= j <= len(LEAD_CASES):
+      fn, prior_class = LEAD_CASES[j - 1]
     case = {'group': g, 'gi': gi, 'fn': fn, 'prior': prior_class,
             'pseed': rng.getrandbits(32), 'seed': rng.getrandbits(30)}
     facts = run_case(rep, env, case, repeat_check=(j % 4 == 0))
